@@ -442,8 +442,15 @@ func c02hist(c *ctx, faults string, ops []string) {
 			}
 			// certificates held in memory vs files
 			for f, content := range p.Sim.Certs {
-				if b, err := os.ReadFile(f); err == nil && string(b) != content && strings.ReplaceAll(string(b), "\n\n", "\n") != content+"\n" && string(b) != content+"\n" {
+				// the controller sends the file without blank lines (runtime API restriction): compare modulo blank lines
+				normc := func(x string) string { return strings.TrimSpace(strings.ReplaceAll(x, "\n\n", "\n")) }
+				if b, err := os.ReadFile(f); err == nil && normc(string(b)) != normc(content) {
 					st += ":crtdiff:" + sanitize(filepath.Base(f))
+					if os.Getenv("HV_DEBUG") != "" {
+						dn, _ := world.ContentName(string(b))
+						rn, _ := world.ContentName(content)
+						fmt.Fprintf(os.Stderr, "crtdiff %s disk=%s(%d bytes) running=%s(%d bytes)\n", f, dn, len(b), rn, len(content))
+					}
 				}
 			}
 			steps = append(steps, st)
